@@ -3,7 +3,7 @@
 the real PGM-index templates to CBMC's C front end.  Scratch feasibility probe, not framework code."""
 import re, sys, os
 
-OPTS = {'narrow': 0, 'noop': [], 'unreachable': []}   # noop: regexes of void functions given an empty body (logging / memory accounting of third-party code)
+OPTS = {'narrow': 0, 'noop': [], 'unreachable': [], 'unreachable_def': []}   # noop: regexes of void functions given an empty body (logging / memory accounting of third-party code)
 #   # narrow=B: wide mul/div/int->fp are computed on B-bit signed operands under a CHECKED assertion that the operands fit
 
 class Ty:
@@ -947,6 +947,14 @@ def translate(m, roots):
             fn = todo.pop()
             if fn in seen or fn not in m.funcs: continue
             seen.add(fn); before = set(g.called)
+            if any(re.search(rx, fn) for rx in OPTS['unreachable_def']):
+                # virtual member functions reachable only through a vtable slot that no encoded path calls (serialisation, I/O)
+                f = m.funcs[fn]; rt_ = g.cty(f.ret)
+                hdr = '%s %s(%s)' % (rt_, fname(fn), ', '.join(g.decl(t, 'a%d' % i) for i, (t, _) in enumerate(f.args)) or 'void')
+                protos.append(hdr + ';')
+                bodies.append(hdr + ' { RT_ASSERT(0, "BOUND: function stubbed as unreachable was reached"); RT_ASSUME(0); %s }\n' % ('' if rt_ == 'void' else ('return (%s)0;' % rt_ if f.ret.k in ('int', 'ptr', 'float', 'double') else '{ %s z_ = {0}; return z_; }' % rt_)))
+                g.stats['stubbed_unreachable_def'] += 1
+                continue
             hdr, body = FG(g, m.funcs[fn]).gen()
             protos.append(hdr + ';'); bodies.append(body)
             for c in sorted(g.called - before): todo.append(c)
